@@ -709,7 +709,7 @@ def check_C13(ctx):
     vt.write_evidence(ctx, 'model_checking', ctx.extra['rule'], exhaustive=True)
 
 def check_C07(ctx):
-    cfgs = ['EngineParallelMC.cfg', 'EngineParallelMC_faults.cfg']
+    cfgs = ['EngineParallelMC.cfg', 'EngineParallelMC_faults.cfg', 'EngineParallelMC_long.cfg']
     if not ctx.quick():
         cfgs += ['EngineParallelMC_4.cfg', 'EngineParallelMC_hi.cfg']
     engines(ctx, 'C07', cfgs, [], ['C07'])
